@@ -45,6 +45,7 @@ func checkC05(c *Ctx) {
 	c.Rule("C05.R2", "every multi-byte binary.Read/Write and every call of a helper receives the byte order of the element being processed (the function's order parameter, or in Read the order just decoded from that element's own flag byte); no multi-byte transfer uses a constant order")
 	c.Rule("C05.R3", "writer type→code table, reader registry code→reader, concrete type each reader returns and member type each multi-reader asserts all agree and equal OGC codes 1..7; byte-order flag table is big-endian↔0, little-endian↔1 in both directions, any other flag is an error")
 	c.Rule("C05.R4", "hex.Encode is EncodeToString of exactly wkb.Encode's bytes; hex.Decode passes DecodeString's bytes unchanged to wkb.Decode")
+	c.Rule("C05.R5", "the bytes/string Encode returns are freshly allocated in the call: they do not share storage with a package-level buffer or a sync.Pool object (an encoding the caller keeps stays the encoding of its geometry)")
 	pk := c.P.Pkg("encoding/wkb")
 	if pk == nil {
 		c.Unk("C05.R1", "encoding/wkb", token.NoPos, "package not loaded")
@@ -60,6 +61,8 @@ func checkC05(c *Ctx) {
 	a.layoutReaders()
 	a.byteOrder()
 	a.hexWrap()
+	checkFreshResult(c, "C05.R5", c.P.Func("encoding/wkb", "Encode"), c.P.Func("encoding/hex", "Encode"))
+	c.Floor("C05.R5", 2)
 	c.Floor("C05.R1", 14)
 	c.Floor("C05.R2", 15)
 	c.Floor("C05.R3", 16)
